@@ -21,17 +21,18 @@ LANGS = ["c", "cpp", "py", "html"]
 PROC_CLASSES = ["siblings", "psUniqueName", "psMemo", "psTemplateCache", "psModelCache", "psCompileFold", "psSharedMutable"]
 FACTOR_CLASSES = {"process": ["random", "platform"], "clock": ["time"], "hashseed": ["hashOrder"], "cwd": ["absPath"],
                   "location": ["absPath"], "process-history": PROC_CLASSES}
+CFG = common.VERIF / "corpus" / "C07" / "config"
 OPTSETS = {
-    "c": [("default", []), ("asserts+pp", ["--enable-serialization-asserts", "--enable-override-variable-array-capacity",
+    "c": [("default", []), ("cfg-option-types", ["--configuration", CFG / "option_types.yaml"]), ("cfg-option-scalars", ["--configuration", CFG / "option_scalars.yaml"]), ("asserts+pp", ["--enable-serialization-asserts", "--enable-override-variable-array-capacity",
                                           "--pp-max-emptylines", "2", "--pp-trim-trailing-whitespace"]),
           ("omit-support+be", ["--omit-serialization-support", "--target-endianness", "big"]),
           ("nofloat-c11", ["--omit-float-serialization-support", "--language-standard", "c11"])],
-    "cpp": [("default", []), ("c++17-pmr+asserts", ["--language-standard", "c++17-pmr", "--enable-serialization-asserts"]),
+    "cpp": [("default", []), ("cfg-option-types", ["--configuration", CFG / "option_types.yaml"]), ("cfg-option-scalars", ["--configuration", CFG / "option_scalars.yaml"]), ("c++17-pmr+asserts", ["--language-standard", "c++17-pmr", "--enable-serialization-asserts"]),
             ("c++20+pp", ["--language-standard", "c++20", "--pp-max-emptylines", "1", "--pp-trim-trailing-whitespace"]),
             ("omit-support", ["--omit-serialization-support"])],
-    "py": [("default", []), ("pp", ["--pp-max-emptylines", "2", "--pp-trim-trailing-whitespace"]),
+    "py": [("default", []), ("cfg-option-types", ["--configuration", CFG / "option_types.yaml"]), ("pp", ["--pp-max-emptylines", "2", "--pp-trim-trailing-whitespace"]),
            ("ext", ["--output-extension", ".pyx"])],
-    "html": [("default", []), ("pp", ["--pp-max-emptylines", "1", "--pp-trim-trailing-whitespace"]),
+    "html": [("default", []), ("cfg-option-types", ["--configuration", CFG / "option_types.yaml"]), ("pp", ["--pp-max-emptylines", "1", "--pp-trim-trailing-whitespace"]),
              ("ext", ["--output-extension", ".htm"])],
 }
 B85_LINE = re.compile(r"^\s*'[0-9A-Za-z!#$%&()*+\-;<=>?@^_`{|}~]+'\)?\s*$")
@@ -207,6 +208,39 @@ class Model:
         return bool(why), why
 
 
+def run_histories(ctx, model):
+    """Histories over one interpreter / one output directory with edits and option changes between the runs (paired_runs.history_stream):
+    the final run of every history against the same run in a fresh interpreter into a fresh directory."""
+    base = common.VERIF / "corpus" / "C07" / "dsdl"
+    hub = (base / "vnet" / "Hub.1.0.dsdl").read_text()
+    edits = {"nested": [("vnet/alpha/Point.1.0.dsdl", "# A point, now with a third coordinate.\nfloat32 x\nfloat32 y\nfloat32 z\n@sealed\n")],
+             "swap": [("vnet/Hub.1.0.dsdl", hub.replace("vnet.gamma.Leaf.1.0[<=3] leaves", "vdep.util.Ext.1.0[<=3] leaves"))]}
+    assert edits["swap"][0][1] != hub
+    findings = pr.history_stream(ctx, common.REPO / "src", base / "vnet", [base / "vdep"], LANGS, edits, quick=ctx.quick)
+    for f in findings:
+        ctx.case(("history", f["scenario"], f["lang"]), nontrivial=True)
+        ctx.count("history_" + f["kind"])
+        if model is not None:
+            ctx.traces += 1
+        if f["kind"] == "worker-error":
+            ctx.broken.append({"kind": "paired-run-worker", "job": f"history {f['scenario']} {f['lang']}", "error": f["error"]})
+        elif f["kind"] == "outcome":
+            ctx.fail({"kind": "history-dependent-outcome", "scenario": f["scenario"], "lang": f["lang"]},
+                     "the final run of a history fails / succeeds unlike the same run in a fresh process", {k: f[k] for k in ("scenario", "lang", "runs", "errors")})
+        elif f["kind"] == "differs":
+            rel = f["files"][0]
+            where, d = where_of_diff(f["lang"], pathlib.Path(f["fresh_out"]) / rel, pathlib.Path(f["final_out"]) / rel)
+            rp = {"scenario": f["scenario"], "lang": f["lang"], "runs_in_one_interpreter": f["runs"], "file": rel, "n_differing_files": f["n"],
+                  "first_differing_line_fresh_vs_history": d, "sha256": f["sha256"], "input": "corpus:vnet"}
+            if model is not None:
+                ctx.disagree("history", {k: rp[k] for k in ("scenario", "lang", "file", "first_differing_line_fresh_vs_history")},
+                             "equal (the output is a function of the final inputs and options)", "files differ")
+            ctx.fail({"kind": "history-dependent-output", "scenario": f["scenario"], "lang": f["lang"], "file_kind": pr.file_kind(f["lang"], rel), "where": where},
+                     f"{f['lang']}: after the history '{f['scenario']}' {rel} differs from what a fresh process writes into a fresh directory ({where})", rp)
+            ctx.sample({"history": f["scenario"], "lang": f["lang"], "differs": rel})
+    return findings
+
+
 def where_of_diff(lang, path_a, path_b):
     """Implementation-side description of where two files differ (part of the key of a finding)."""
     d = pr.first_diff(path_a, path_b)
@@ -279,7 +313,7 @@ def run(ctx: common.Ctx):
 
     # ---- paired runs ----------------------------------------------------------------------------------------------------------------
     inputs = corpus_inputs(ctx) + generated_inputs(ctx, 1 if ctx.quick else 4)
-    nopt = 2 if ctx.quick else 4
+    nopt = 2 if ctx.quick else 5
     rnd_seed = str(ctx.rng.randint(2, 2 ** 31 - 1))
     scratch = ctx.scratch
     (scratch / "cwd1").mkdir(); (scratch / "cwd2" / "nested" / "dir").mkdir(parents=True)
@@ -308,10 +342,10 @@ def run(ctx: common.Ctx):
 
                 def add(variant, factor, loc, cwd, hs, ft, step=0.0, cfg=cfg, lang=lang, extra=extra, root=root, lookups=lookups):
                     out = loc / f"out_{lang}_{oname.replace('+', '_')}_{variant}"
-                    argv = ["--experimental-languages", "-l", lang, "-O", out]
+                    argv = ["--experimental-languages", "-l", lang, "-O", out, loc / root.name]
                     for lk in lookups:
                         argv += ["-I", loc / lk.name]
-                    argv += list(extra) + [loc / root.name]
+                    argv += list(extra)
                     name = f"j{len(jobs)}"
                     jobs.append({"name": name, "runs": [pr.make_run(argv, out, cwd)], "hashseed": hs, "fake_time": ft, "fake_step": step})
                     meta[name] = {"cfg": cfg, "variant": variant, "factor": factor, "out": out, "lang": lang, "extra": list(extra),
@@ -399,6 +433,7 @@ def run(ctx: common.Ctx):
             ctx.fail(key, f"{m['lang']} {kind} files depend on the {m['factor']} ({where}) with auditing off: {rel} line {d[0] if d else '?'}", replay)
             ctx.sample({"differs": rel, "lang": m["lang"], "factor": m["variant"], "where": where, "line": d[0] if d else None})
     ctx.sample({"pairs": len(jobs) - len(bases), "inputs": [i[0] for i in inputs], "random_hash_seed": rnd_seed})
+    run_histories(ctx, model)
 
 
 def replay(ctx, path):
@@ -432,7 +467,7 @@ def replay(ctx, path):
         cwd = scratch / ("cwd1" if (side == "base" or same_cwd) else "cwd2/nested/dir")
         cwd.mkdir(parents=True, exist_ok=True)
         out = loc / f"out_{side}"
-        argv = ["--experimental-languages", "-l", rp["lang"], "-O", out] + [x for l in lks for x in ("-I", l)] + list(rp["options"]) + [root]
+        argv = ["--experimental-languages", "-l", rp["lang"], "-O", out, root] + [x for l in lks for x in ("-I", l)] + list(rp["options"])
         jobs.append({"name": side, "runs": [pr.make_run(argv, out, cwd)], "hashseed": cfg["hashseed"], "fake_time": cfg["clock"],
                      "fake_step": cfg.get("clock_step", 0.0)})
         outs[side] = out
